@@ -109,6 +109,11 @@ class ConcreteCtx:
     def ge(self, a, b):
         return self.le(b, a)
 
+    def close(self, a, b, rel=1e-6, abs_=0.0):
+        """|a-b| <= rel*|b| + abs_ (b is the reference value)"""
+        a, b = float(a), float(b)
+        return abs(a - b) <= rel * 1.001 * abs(b) + abs_ + self._tol(a, b) * 1e-3
+
     def gt(self, a, b):
         return self.lt(b, a)
 
